@@ -22,7 +22,7 @@ RULE = (
     "failures; 60% drawn from a 'failing prefix' family so that >=2 executions are common), max_retries 0..6 given as "
     "int label, str label or middleware default, retry_on_error as bool label, str label ('True'/'true'/'TRUE'/'False'/"
     "'false') or the middleware default (on/off), both no_result_on_retry settings, typed user labels, args/kwargs, codec "
-    "JSON / pickle / JSONFormatter. The task is sent with the real AsyncKicker, every delivery goes through the real "
+    "JSON / pickle / JSONFormatter; the middleware is SimpleRetryMiddleware itself or a trivial subclass that only inherits its hooks. The task is sent with the real AsyncKicker, every delivery goes through the real "
     "formatter bytes and Receiver.callback, re-sends are whatever SimpleRetryMiddleware hands to broker.kick(). "
     "Oracle = reference model written from the statement: executions = position of the first non-fail outcome, capped "
     "at max(1, max_retries) when retry is enabled, else 1; saves: re-sent attempts store nothing iff no_result_on_retry, "
@@ -64,6 +64,7 @@ def cases() -> Any:
         codec=st.sampled_from(["json", "json", "pickle", "jsonfmt"]),
         # what a failing attempt raises: ordinary exceptions, a BaseException, and errors of taskiq's own client API
         # (a task waiting for a sub-task, kicking while the broker is down, rejecting) - all of them are failures
+        subclass=st.sampled_from([False, False, True]),
         fail_kind=st.sampled_from(["ValueError", "ValueError", "KeyError", "MyBase", "TaskiqResultTimeoutError", "SendTaskError", "TaskRejectedError", "ResultGetError"]),
         # a second call of the same task handled by the same middleware instance (own labels, own outcome sequence)
         second=st.one_of(st.none(), st.none(), st.fixed_dictionaries(dict(
@@ -144,8 +145,11 @@ def run_case(c: Dict[str, Any]) -> Outcome:
             b.serializer = PickleSerializer()
         if c["codec"] == "jsonfmt":
             b.formatter = JSONFormatter()
-        b.add_middlewares(SimpleRetryMiddleware(default_retry_count=c["dflt_count"], default_retry_label=c["dflt_label"],
-                                                no_result_on_retry=c["nror"]))
+        mw_cls: Any = SimpleRetryMiddleware
+        if c.get("subclass"):
+            # a project-wide subclass that only inherits the hooks (e.g. to change constructor defaults)
+            mw_cls = type("AppRetryMiddleware", (SimpleRetryMiddleware,), {"__doc__": "inherits on_error"})
+        b.add_middlewares(mw_cls(default_retry_count=c["dflt_count"], default_retry_label=c["dflt_label"], no_result_on_retry=c["nror"]))
         seen: List[Any] = []
 
         async def t(a: Any, b_: Any = None, c_: Any = None, z: Any = None, ctx: Context = TaskiqDepends()) -> Any:
